@@ -307,7 +307,7 @@ theorem withAttr_atomic (self : Ref) (a : Nat) (v : Ref) (kw : List (Nat × Ref)
 
 theorem updateAttr_atomic (self : Ref) (a : Nat) (v : Ref) (kw : List (Nat × Ref)) :
     Atomic H (updateAttr X self a v kw true) := by
-  unfold updateAttr
+  rw [updateAttr_eq_core hX]; unfold updateAttrCore
   refine Tri.bind_safe (getInst_safe self) (fun p _ => ?_)
   split
   · exact Tri.throwPy _ (fun s hs => hs)
@@ -318,7 +318,7 @@ theorem updateAttr_atomic (self : Ref) (a : Nat) (v : Ref) (kw : List (Nat × Re
 
 theorem transformAttr_atomic (self : Ref) (a : Nat) (f : Option Cb) (kwf : List (Nat × Cb)) :
     Atomic H (transformAttr X self a f kwf true) := by
-  unfold transformAttr
+  rw [transformAttr_eq_core hX]; unfold transformAttrCore
   refine Tri.bind_safe (getInst_safe self) (fun p _ => ?_)
   split
   · exact Tri.throwPy _ (fun s hs => hs)
